@@ -25,7 +25,7 @@ def load_findings():
 class Check:
     """One run of one property's check."""
 
-    def __init__(self, pid: str, tier: str, seed: int, level: str = "model_checking"):
+    def __init__(self, pid: str, tier: str, seed: int, level: str = "model_checking", clean: bool = True):
         self.pid, self.tier, self.seed, self.level = pid, tier, seed, level
         self.t0 = time.time()
         self.violations = []      # unlisted violations (dicts)
@@ -34,13 +34,13 @@ class Check:
         self.samples = []
         self.notes = []
         self.suppressed = 0       # unlisted violations beyond MAX_REPORTED (counted, not written out)
-        if os.path.isdir(REPLAYS):
+        if clean and os.path.isdir(REPLAYS):
             for f in os.listdir(REPLAYS):
                 if f.startswith(pid + "-"):
                     os.remove(os.path.join(REPLAYS, f))
 
     # -- violations ---------------------------------------------------------
-    def _match(self, key: str, signature: str, ast=None):
+    def _match(self, key: str, signature: str, ast=None, jobs=None):
         import findings as fmod
         for f in self.findings:
             m = f["match"]
@@ -51,13 +51,16 @@ class Check:
             if "predicate" in m:
                 if ast is None or not fmod.PREDICATES[m["predicate"]](ast):
                     continue
+            if "rule" in m:
+                if ast is None or jobs is None or not fmod.RULES[m["rule"]](ast, jobs):
+                    continue
             return f
         return None
 
-    def violation(self, key: str, signature: str, detail: dict, ast=None) -> bool:
+    def violation(self, key: str, signature: str, detail: dict, ast=None, jobs=None) -> bool:
         """Report that the property fails on case `key` with failure `signature`.
         Returns True if it was an unlisted violation (counts against the exit status)."""
-        f = self._match(key, signature, ast)
+        f = self._match(key, signature, ast, jobs)
         if f is not None:
             if f["id"] not in self.known:
                 print("KNOWN-FINDING: property=%s %s [%s]" % (self.pid, f["what"], f["id"]))
